@@ -268,7 +268,10 @@ where
         &self,
         environment: &chalk_ir::Environment<I>,
     ) -> chalk_ir::ProgramClauses<I> {
-        self.ws.db().program_clauses_for_env(environment)
+        // Elaborate the environment through `self`, not through the wrapped
+        // database: elaboration reads trait and struct definitions, and those
+        // reads have to be recorded too.
+        crate::clauses::program_clauses_for_env(self, environment)
     }
 
     fn interner(&self) -> I {
